@@ -23,6 +23,7 @@ type C02Op struct {
 
 type C02Scenario struct {
 	core.Base
+	ShareOpts bool `json:"share_opts,omitempty"` // option values created once and reused by all subscriptions (see World.ShareOptions)
 	Init   []C02Op   `json:"init"`  // subscriptions made before the tasks start
 	Tasks  [][]C02Op `json:"tasks"` // concurrent tasks
 	Yields int       `json:"yields"`
@@ -73,6 +74,7 @@ func genC02Twins(rt *rapid.T) core.Scenario {
 		sc.Tasks = append(sc.Tasks, ops)
 	}
 	sc.Yields = rapid.IntRange(0, 2).Draw(rt, "yields")
+	sc.ShareOpts = rapid.IntRange(0, 2).Draw(rt, "shareOpts") == 2
 	sc.Tape = core.DrawTape(rt, 400)
 	return sc
 }
@@ -144,6 +146,7 @@ func genC02(rt *rapid.T) core.Scenario {
 		sc.Tasks = append(sc.Tasks, ops)
 	}
 	sc.Yields = rapid.IntRange(0, 2).Draw(rt, "yields")
+	sc.ShareOpts = rapid.IntRange(0, 2).Draw(rt, "shareOpts") == 2
 	sc.Tape = core.DrawTape(rt, 400)
 	return sc
 }
@@ -190,6 +193,7 @@ func (sc *C02Scenario) Execute(t *testing.T) *core.Outcome {
 
 	body := func() {
 		w = NewWorld()
+		w.ShareOptions = sc.ShareOpts
 		w.OnInvoke = func(ti, fn, uid int, ctx context.Context, id int) {
 			k := regKey(ti, fn)
 			if sc.Twins {
